@@ -21,6 +21,8 @@ Definition spawned_pc (p : pc) : bool :=
 Definition tables_pc (p : pc) : bool :=
   match p with PJoinOwn | PSendConnect | PSetConnected | PSpawn | PAdmitted => true | _ => false end.
 Definition cleaned_pc (p : pc) : bool := match p with PSendError _ | PRejected _ => true | _ => false end.
+Definition disabled_pc (p : pc) : bool :=
+  match p with PLeave _ | PSendError _ | PRejected _ => true | _ => false end.
 
 Definition acc_prefix (c : list mwb) (i : nat) : Prop := Forall (fun b => accepts b = true) (firstn i c).
 Definition rejected_at (c : list mwb) (j : nat) (r : rej) : Prop :=
@@ -29,7 +31,7 @@ Definition rejected_at (c : list mwb) (j : nat) (r : rej) : Prop :=
 Definition pc_ok (c : list mwb) (p : pc) (calls : list nat) : Prop :=
   match p with
   | PMw i => (i <= length c)%nat /\ acc_prefix c i /\ calls = seq 0 i
-  | PCleanup r | PSendError r | PRejected r => exists j, rejected_at c j r /\ calls = seq 0 (S j)
+  | PDisable r | PLeave r | PSendError r | PRejected r => exists j, rejected_at c j r /\ calls = seq 0 (S j)
   | _ => acc_prefix c (length c) /\ calls = seq 0 (length c)
   end.
 
@@ -50,7 +52,9 @@ Record tinv (s : server) (t : adm) : Prop := mkTinv {
   i_chain : pc_ok (t_chain t) (t_pc t) (mw_calls (t_sid t) (trace s));
   i_pkts : packets (t_sid t) (trace s) = expected_packets (t_sid t) (t_pc t);
   i_h : handler_runs (t_sid t) (trace s) = match t_h t with HRan => 1%nat | _ => 0%nat end;
-  i_hpc : t_h t <> HNone <-> spawned_pc (t_pc t) = true
+  i_hpc : t_h t <> HNone <-> spawned_pc (t_pc t) = true;
+  i_jen : t_jen t = negb (disabled_pc (t_pc t));
+  i_held : disabled_pc (t_pc t) = true -> held t = false
 }.
 
 (** * Frame: a step of another socket's thread changes nothing of what is said about x *)
@@ -68,7 +72,7 @@ Proof. intros; unfold same_for; intuition. Qed.
 
 Lemma tinv_frame : forall s s' u, same_for (t_sid u) s s' -> tinv s u -> tinv s' u.
 Proof.
-  intros s s' u (F1 & F2 & F3 & F4 & F5 & F6 & F7) [I1 I2 I3 I4 I5 I6 I7 I8 I9 I10].
+  intros s s' u (F1 & F2 & F3 & F4 & F5 & F6 & F7) [I1 I2 I3 I4 I5 I6 I7 I8 I9 I10 I11 I12].
   assert (rooms_of (adp s') (t_sid u) = rooms_of (adp s) (t_sid u)) as R by (unfold rooms_of; now rewrite F4).
   constructor; rewrite ?R, ?F4, ?F5, ?F6, ?F7; auto; try tauto.
 Qed.
@@ -123,59 +127,77 @@ Ltac neqb :=
   | H : ?y <> ?x |- context [N.eqb ?x ?y] => rewrite (proj2 (N.eqb_neq x y) (not_eq_sym H))
   end.
 
+Ltac brk :=
+  repeat (match goal with
+          | |- context [existsb is_hold ?js] => destruct (existsb is_hold js) eqn:?HD
+          | |- context [nonempty ?l] => destruct (nonempty l)
+          | |- context [match nth_error ?c ?i with _ => _ end] => destruct (nth_error c i) as [?b|] eqn:?NTH
+          | |- context [match mb_verdict ?b with _ => _ end] => destruct (mb_verdict b) eqn:?V
+          end; simpl).
+
+Ltac frame_tac :=
+  try apply same_for_refl; unfold same_for; simpl;
+  rewrite ?join_calls_sids_other, ?delete_all_sids_other, ?add_all_sids_other, ?mw_calls_snoc,
+          ?packets_snoc, ?handler_runs_snoc, ?set_add_N_In by auto;
+  simpl; neqb; rewrite ?app_nil_r, ?Nat.add_0_r; try (intuition; fail).
+
 Lemma step_main_frame : forall t s x, x <> t_sid t -> same_for x s (snd (step_main t s)).
 Proof.
-  intros [sd cn ch p h] s x NE. simpl in NE. unfold step_main; simpl.
-  destruct p; simpl; try apply same_for_refl.
-  - destruct (nth_error ch i) as [b|]; simpl; [|apply same_for_refl].
-    destruct (mb_verdict b); simpl; unfold same_for; simpl;
-      rewrite join_calls_sids_other, mw_calls_snoc, packets_snoc, handler_runs_snoc by auto;
-      simpl; neqb; rewrite ?app_nil_r, ?Nat.add_0_r; intuition.
-  - unfold same_for; simpl. rewrite delete_all_sids_other by auto. intuition.
-  - unfold same_for; simpl. rewrite mw_calls_snoc, packets_snoc, handler_runs_snoc. simpl. neqb.
-    rewrite ?app_nil_r, ?Nat.add_0_r. intuition.
-  - unfold same_for; simpl. rewrite set_add_N_In. intuition.
-  - unfold same_for; simpl. repeat split; auto; try tauto.
-    + intros (c & H). apply in_app_or in H as [H|[H|[]]]; eauto. inversion H; subst. contradiction.
-    + intros (c & H). exists c. apply in_or_app; auto.
-  - unfold same_for; simpl. rewrite add_all_sids_other by auto. intuition.
-  - unfold same_for; simpl. rewrite mw_calls_snoc, packets_snoc, handler_runs_snoc. simpl. neqb.
-    rewrite ?app_nil_r, ?Nat.add_0_r. intuition.
-  - unfold same_for; simpl. rewrite set_add_N_In. intuition.
+  intros [sd cn ch p h je js] s x NE. simpl in NE. unfold step_main, held; simpl.
+  destruct p; simpl; brk; destruct je; simpl; frame_tac.
+  all: repeat split; auto; try tauto.
+  all: try (intros (c & H); apply in_app_or in H as [H|[H|[]]]; eauto; inversion H; subst; contradiction).
+  all: try (intros (c & H); exists c; apply in_or_app; auto).
 Qed.
 
 Lemma step_h_frame : forall t s x, x <> t_sid t -> same_for x s (snd (step_h t s)).
 Proof.
-  intros [sd cn ch p h] s x NE. simpl in NE. unfold step_h; simpl.
-  destruct h; simpl; try apply same_for_refl.
-  unfold same_for; simpl. rewrite mw_calls_snoc, packets_snoc, handler_runs_snoc. simpl. neqb.
-  rewrite ?app_nil_r, ?Nat.add_0_r. intuition.
+  intros [sd cn ch p h je js] s x NE. simpl in NE. unfold step_h; simpl.
+  destruct h; simpl; frame_tac.
+Qed.
+
+Lemma step_join_frame : forall j t s x, x <> t_sid t -> same_for x s (snd (step_join j t s)).
+Proof.
+  intros j [sd cn ch p h je js] s x NE. simpl in NE. unfold step_join, held; simpl.
+  destruct (nth_error js j) as [[rs [| |]]|]; simpl; brk; try destruct je; simpl; frame_tac.
 Qed.
 
 Lemma step_main_static : forall t s,
   t_sid (fst (step_main t s)) = t_sid t /\ t_conn (fst (step_main t s)) = t_conn t /\
   t_chain (fst (step_main t s)) = t_chain t.
 Proof.
-  intros [sd cn ch p h] s. unfold step_main; simpl. destruct p; simpl; auto.
-  destruct (nth_error ch i) as [b|]; simpl; auto. destruct (mb_verdict b); simpl; auto.
+  intros [sd cn ch p h je js] s. unfold step_main, held; simpl. destruct p; simpl; brk; auto.
 Qed.
 
 Lemma step_h_static : forall t s,
   t_sid (fst (step_h t s)) = t_sid t /\ t_conn (fst (step_h t s)) = t_conn t /\
   t_chain (fst (step_h t s)) = t_chain t.
-Proof. intros [sd cn ch p h] s. unfold step_h; simpl. destruct h; simpl; auto. Qed.
+Proof. intros [sd cn ch p h je js] s. unfold step_h; simpl. destruct h; simpl; auto. Qed.
+
+Lemma step_join_static : forall j t s,
+  t_sid (fst (step_join j t s)) = t_sid t /\ t_conn (fst (step_join j t s)) = t_conn t /\
+  t_chain (fst (step_join j t s)) = t_chain t.
+Proof.
+  intros j [sd cn ch p h je js] s. unfold step_join, held; simpl.
+  destruct (nth_error js j) as [[rs [| |]]|]; simpl; brk; try destruct je; simpl; auto.
+Qed.
 
 Lemma step_main_consistent : forall t s, consistent (adp s) -> consistent (adp (snd (step_main t s))).
 Proof.
-  intros [sd cn ch p h] s C. unfold step_main; simpl. destruct p; simpl; auto.
-  - destruct (nth_error ch i) as [b|]; simpl; auto.
-    destruct (mb_verdict b); simpl; apply join_calls_consistent, C.
-  - apply delete_all_consistent, C.
-  - apply add_all_consistent, C.
+  intros [sd cn ch p h je js] s C. unfold step_main, held; simpl.
+  destruct p; simpl; brk; destruct je; simpl; auto;
+    try apply join_calls_consistent; try apply delete_all_consistent; try apply add_all_consistent; auto.
 Qed.
 
 Lemma step_h_consistent : forall t s, consistent (adp s) -> consistent (adp (snd (step_h t s))).
-Proof. intros [sd cn ch p h] s C. unfold step_h; simpl. destruct h; simpl; auto. Qed.
+Proof. intros [sd cn ch p h je js] s C. unfold step_h; simpl. destruct h; simpl; auto. Qed.
+
+Lemma step_join_consistent : forall j t s, consistent (adp s) -> consistent (adp (snd (step_join j t s))).
+Proof.
+  intros j [sd cn ch p h je js] s C. unfold step_join, held; simpl.
+  destruct (nth_error js j) as [[rs [| |]]|]; simpl; brk; try destruct je; simpl; auto.
+  all: try (apply add_all_consistent, C).
+Qed.
 
 (** * A thread's own step re-establishes its invariant *)
 Lemma acc_prefix_S : forall c i b, nth_error c i = Some b -> accepts b = true -> acc_prefix c i -> acc_prefix c (S i).
@@ -199,54 +221,82 @@ Ltac fin :=
 
 Lemma step_main_own : forall t s, tinv s t -> tinv (snd (step_main t s)) (fst (step_main t s)).
 Proof.
-  intros [sd cn ch p h] s [I1 I2 I3 I4 I5 I6 I7 I8 I9 I10]. simpl in *.
-  unfold step_main; simpl. destruct p; simpl in *.
-  - (* PMw i *)
-    destruct I7 as (L & AP & CALLS).
-    destruct (nth_error ch i) as [b|] eqn:NTH; simpl.
-    + assert (i < length ch)%nat as LT by (apply nth_error_Some; congruence).
-      destruct (mb_verdict b) eqn:V; simpl; constructor; fin.
-      * intros r H. apply join_calls_rooms_of in H as [H|H]; auto.
-      * repeat split; try lia.
-        -- eapply acc_prefix_S; eauto. unfold accepts; now rewrite V.
-        -- rewrite CALLS. apply seq0_snoc.
-      * intros r0 H. apply join_calls_rooms_of in H as [H|H]; auto.
-      * exists i. split; [exists b; auto|]. rewrite CALLS. apply seq0_snoc.
-    + constructor; fin.
-      assert (i = length ch) as -> by (apply nth_error_None_len; auto). auto.
-  - (* PCleanup *)
-    constructor; fin.
-    + intros r0 H. unfold rooms_of in H. rewrite delete_all_sids_same in H. destruct H.
-    + intros _. apply delete_all_sids_same.
-  - (* PSendError *)
-    constructor; fin. rewrite I8. reflexivity.
-  - constructor; fin.
-  - (* PStore *)
-    constructor; fin.
-  - (* PConnTables *)
-    constructor; fin.
-    split; auto. intros _. exists cn. apply in_or_app. right. left. reflexivity.
-  - (* PJoinOwn *)
-    constructor; fin.
-    + intros r H. apply add_all_rooms_of in H as [H|[_ [H|[]]]]; auto.
-      destruct (I4 r H) as [[_ F]|N]; [discriminate|auto].
-    + intros _. apply add_all_rooms_of. right. split; auto. left; auto.
-  - (* PSendConnect *)
-    constructor; fin. rewrite I8. reflexivity.
-  - (* PSetConnected *)
-    constructor; fin.
-  - (* PSpawn *)
-    constructor; fin.
-    rewrite I9. destruct h; auto. exfalso. assert (HRan <> HNone) as X by discriminate.
-    apply I10 in X. discriminate.
-  - constructor; fin.
+  intros [sd cn ch p h je js] s [I1 I2 I3 I4 I5 I6 I7 I8 I9 I10 I11 I12]. simpl in *.
+  unfold step_main, held in *; simpl in *. destruct p; simpl in *; subst je; simpl; brk;
+    try (constructor; fin; fail).
+  all: constructor; fin.
+  (* rooms after the middleware's own Join calls: still named rooms only *)
+  all: try solve [intros r0 H0; apply join_calls_rooms_of in H0 as [H0|H0]; auto].
+  (* chain bookkeeping *)
+  all: try solve [destruct I7 as (L & AP & CALLS);
+                  match goal with NTH : nth_error ?c ?i = Some ?b, V : mb_verdict ?b = Accept |- _ =>
+                    assert (i < length c)%nat by (apply nth_error_Some; congruence);
+                    repeat split; try lia;
+                    [eapply acc_prefix_S; eauto; unfold accepts; now rewrite V
+                    |rewrite CALLS; apply seq0_snoc] end].
+  all: try solve [destruct I7 as (L & AP & CALLS);
+                  match goal with NTH : nth_error ?c ?i = Some ?b, V : mb_verdict ?b = Reject ?r |- _ =>
+                    exists i; split; [exists b; auto | rewrite CALLS; apply seq0_snoc] end].
+  all: try solve [destruct I7 as (L & AP & CALLS);
+                  match goal with NTH : nth_error ?c ?i = None |- _ =>
+                    assert (i = length c) as -> by (apply nth_error_None_len; auto); auto end].
+  (* cleanup *)
+  all: try solve [intros r0 H0; unfold rooms_of in H0; rewrite delete_all_sids_same in H0; destruct H0].
+  all: try solve [intros _; apply delete_all_sids_same].
+  (* packets *)
+  all: try solve [rewrite I8; reflexivity].
+  (* connection tables *)
+  all: try solve [split; auto; intros _; eexists; apply in_or_app; right; left; reflexivity].
+  (* own room *)
+  all: try solve [intros r0 H0; apply add_all_rooms_of in H0 as [H0|[_ [H0|[]]]]; auto;
+                  destruct (I4 r0 H0) as [[_ F]|N]; [discriminate|auto]].
+  all: try solve [intros _; apply add_all_rooms_of; right; split; auto; left; auto].
+  (* handler goroutine not started yet *)
+  all: try solve [rewrite I9; destruct h; auto; exfalso; assert (HRan <> HNone) as X by discriminate;
+                  apply I10 in X; discriminate].
 Qed.
 
 Lemma step_h_own : forall t s, tinv s t -> tinv (snd (step_h t s)) (fst (step_h t s)).
 Proof.
-  intros [sd cn ch p h] s [I1 I2 I3 I4 I5 I6 I7 I8 I9 I10]. simpl in *.
+  intros [sd cn ch p h je js] s [I1 I2 I3 I4 I5 I6 I7 I8 I9 I10 I11 I12]. simpl in *.
   unfold step_h; simpl. destruct h; simpl; try (constructor; fin).
   rewrite I9. reflexivity.
+Qed.
+
+(** A Join goroutine's step: it lands in the adapter only while joins are enabled; once the
+    clean-up has disabled joins no goroutine holds joinMu and later Joins are no-ops. *)
+Lemma hold_at : forall js j rs, nth_error js j = Some (rs, JHold) -> existsb is_hold js = true.
+Proof.
+  intros js j rs H. apply existsb_exists. exists (rs, JHold). split; [eapply nth_error_In; eauto | reflexivity].
+Qed.
+
+Lemma existsb_upd_done : forall js j rs,
+  existsb is_hold js = false -> existsb is_hold (upd_nth j (rs, JDone) js) = false.
+Proof.
+  induction js as [|a js IH]; intros [|j] rs H; simpl in *; auto.
+  - apply orb_false_iff in H as [_ H]. exact H.
+  - apply orb_false_iff in H as [H1 H2]. rewrite H1. simpl. auto.
+Qed.
+
+Lemma step_join_own : forall j t s, tinv s t -> tinv (snd (step_join j t s)) (fst (step_join j t s)).
+Proof.
+  intros j [sd cn ch p h je js] s [I1 I2 I3 I4 I5 I6 I7 I8 I9 I10 I11 I12]. simpl in *.
+  unfold step_join, held in *; simpl in *.
+  destruct (nth_error js j) as [[rs [| |]]|] eqn:NJ; simpl; try (constructor; fin; fail).
+  - (* entering Join *)
+    destruct (existsb is_hold js) eqn:HD; simpl; [constructor; fin|].
+    destruct je; simpl; constructor; fin.
+    + intros D. rewrite D in I11. discriminate.
+    + intros D. unfold held; simpl. apply existsb_upd_done; auto.
+  - (* AddAll and return: only possible while joins are enabled *)
+    pose proof (hold_at js j rs NJ) as HD.
+    assert (disabled_pc p = false) as ND.
+    { destruct (disabled_pc p) eqn:D; auto. rewrite (I12 eq_refl) in HD. discriminate. }
+    constructor; fin.
+    + intros r0 H0. apply add_all_rooms_of in H0 as [H0|[_ H0]]; auto.
+      apply in_map_iff in H0 as (n & <- & _). eauto.
+    + intros O. apply add_all_rooms_of. left. auto.
+    + intros CL. destruct p; simpl in *; discriminate.
 Qed.
 
 (** * The global invariant and its preservation along every schedule *)
@@ -254,12 +304,13 @@ Definition ginv (st : sys) : Prop :=
   NoDup (map t_sid (snd st)) /\ consistent (adp (fst st)) /\ Forall (tinv (fst st)) (snd st).
 
 Definition fresh (ts : list adm) : Prop :=
-  NoDup (map t_sid ts) /\ Forall (fun t => t_pc t = PMw 0 /\ t_h t = HNone) ts.
+  NoDup (map t_sid ts) /\
+  Forall (fun t => t_pc t = PMw 0 /\ t_h t = HNone /\ t_jen t = true /\ t_js t = []) ts.
 
-Lemma tinv_fresh : forall t, t_pc t = PMw 0 -> t_h t = HNone -> tinv server0 t.
+Lemma tinv_fresh : forall t, t_pc t = PMw 0 -> t_h t = HNone -> t_jen t = true -> t_js t = [] -> tinv server0 t.
 Proof.
-  intros [sd cn ch p h] P H. simpl in *. subst.
-  constructor; simpl; try tauto; try (intuition discriminate).
+  intros [sd cn ch p h je js] P H J JS. simpl in *. subst.
+  constructor; simpl; try tauto; try (intuition discriminate); auto.
   - split; [intros (c & [])|discriminate].
   - repeat split; try lia. constructor.
 Qed.
@@ -268,7 +319,7 @@ Lemma ginv_init : forall ts, fresh ts -> ginv (init ts).
 Proof.
   intros ts [ND F]. unfold ginv, init; simpl. split; [auto|split].
   - apply consistent0.
-  - eapply Forall_impl; [|exact F]. intros t [P H]. now apply tinv_fresh.
+  - eapply Forall_impl; [|exact F]. intros t (P & H & J & JS). now apply tinv_fresh.
 Qed.
 
 Lemma map_upd_nth_same : forall {A B} (f : A -> B) n x l y,
@@ -293,29 +344,28 @@ Qed.
 
 Lemma sys_step_ginv : forall st mv, ginv st -> ginv (sys_step st mv).
 Proof.
-  intros [s ts] [n b] (ND & C & F). unfold sys_step; simpl.
+  intros [s ts] [n w] (ND & C & F). unfold sys_step; simpl.
   destruct (nth_error ts n) as [t|] eqn:NTH; [|split; [auto|split; auto]].
   assert (In t ts) as INt by (eapply nth_error_In; eauto).
   assert (tinv s t) as Tt by (rewrite Forall_forall in F; auto).
-  destruct b.
-  - pose proof (step_h_own t s Tt) as OWN. pose proof (step_h_static t s) as (S1 & _ & _).
-    pose proof (step_h_consistent t s C) as C'.
-    destruct (step_h t s) as [t' s'] eqn:ST. simpl in *.
-    unfold ginv; simpl. split; [|split; [auto|]].
-    + erewrite map_upd_nth_same; eauto.
-    + apply Forall_forall. intros u IU.
+  assert (forall t' s', t_sid t' = t_sid t -> consistent (adp s') -> tinv s' t' ->
+            (forall x, x <> t_sid t -> same_for x s s') ->
+            ginv (s', upd_nth n t' ts)) as K.
+  { intros t' s' S1 C' OWN FR. unfold ginv; simpl. split; [|split; [auto|]].
+    - erewrite map_upd_nth_same; eauto.
+    - apply Forall_forall. intros u IU.
       destruct (in_upd_nth t_sid n t' ts t u NTH ND IU) as [->|[IU' NE]]; auto.
-      eapply tinv_frame; [|rewrite Forall_forall in F; apply F; exact IU'].
-      pose proof (step_h_frame t s (t_sid u) NE) as FR. rewrite ST in FR. exact FR.
+      eapply tinv_frame; [|rewrite Forall_forall in F; apply F; exact IU']. apply FR, NE. }
+  destruct w as [| |j].
   - pose proof (step_main_own t s Tt) as OWN. pose proof (step_main_static t s) as (S1 & _ & _).
-    pose proof (step_main_consistent t s C) as C'.
-    destruct (step_main t s) as [t' s'] eqn:ST. simpl in *.
-    unfold ginv; simpl. split; [|split; [auto|]].
-    + erewrite map_upd_nth_same; eauto.
-    + apply Forall_forall. intros u IU.
-      destruct (in_upd_nth t_sid n t' ts t u NTH ND IU) as [->|[IU' NE]]; auto.
-      eapply tinv_frame; [|rewrite Forall_forall in F; apply F; exact IU'].
-      pose proof (step_main_frame t s (t_sid u) NE) as FR. rewrite ST in FR. exact FR.
+    pose proof (step_main_consistent t s C) as C'. pose proof (step_main_frame t s) as FR.
+    destruct (step_main t s) as [t' s']. simpl in *. apply K; auto.
+  - pose proof (step_h_own t s Tt) as OWN. pose proof (step_h_static t s) as (S1 & _ & _).
+    pose proof (step_h_consistent t s C) as C'. pose proof (step_h_frame t s) as FR.
+    destruct (step_h t s) as [t' s']. simpl in *. apply K; auto.
+  - pose proof (step_join_own j t s Tt) as OWN. pose proof (step_join_static j t s) as (S1 & _ & _).
+    pose proof (step_join_consistent j t s C) as C'. pose proof (step_join_frame j t s) as FR.
+    destruct (step_join j t s) as [t' s']. simpl in *. apply K; auto.
 Qed.
 
 Lemma run_ginv : forall sched st, ginv st -> ginv (run sched st).
@@ -337,12 +387,14 @@ Definition t_static (t : adm) := (t_sid t, t_conn t, t_chain t).
 
 Lemma sys_step_static : forall st mv, map t_static (snd (sys_step st mv)) = map t_static (snd st).
 Proof.
-  intros [s ts] [n b]. unfold sys_step; simpl.
+  intros [s ts] [n w]. unfold sys_step; simpl.
   destruct (nth_error ts n) as [t|] eqn:NTH; auto.
-  destruct b.
+  destruct w as [| |j].
+  - pose proof (step_main_static t s) as (S1 & S2 & S3). destruct (step_main t s) as [t' s']. simpl in *.
+    eapply map_upd_nth_same; eauto. unfold t_static. congruence.
   - pose proof (step_h_static t s) as (S1 & S2 & S3). destruct (step_h t s) as [t' s']. simpl in *.
     eapply map_upd_nth_same; eauto. unfold t_static. congruence.
-  - pose proof (step_main_static t s) as (S1 & S2 & S3). destruct (step_main t s) as [t' s']. simpl in *.
+  - pose proof (step_join_static j t s) as (S1 & S2 & S3). destruct (step_join j t s) as [t' s']. simpl in *.
     eapply map_upd_nth_same; eauto. unfold t_static. congruence.
 Qed.
 
@@ -365,11 +417,11 @@ Definition visible (s : server) (x : sid) : Prop :=
   \/ (exists c, In (c, x) (c_socks s)).
 
 Definition passed_pc (p : pc) : bool :=
-  match p with PMw _ | PCleanup _ | PSendError _ | PRejected _ => false | _ => true end.
+  match p with PMw _ | PDisable _ | PLeave _ | PSendError _ | PRejected _ => false | _ => true end.
 
 Lemma visible_passed : forall s t, consistent (adp s) -> tinv s t -> visible s (t_sid t) -> passed_pc (t_pc t) = true.
 Proof.
-  intros s t C [I1 I2 I3 I4 I5 I6 I7 I8 I9 I10] V.
+  intros s t C [I1 I2 I3 I4 I5 I6 I7 I8 I9 I10 I11 I12] V.
   assert (in_store_pc (t_pc t) = true -> passed_pc (t_pc t) = true) as P1 by (destruct (t_pc t); simpl; auto).
   destruct V as [V|[V|[V|[V|[V|[V|V]]]]]].
   - apply P1, I1, V.
@@ -388,7 +440,7 @@ Lemma passed_all_accept : forall s t, tinv s t -> passed_pc (t_pc t) = true ->
   mw_calls (t_sid t) (trace s) = seq 0 (length (t_chain t)) /\
   Forall (fun b => accepts b = true) (t_chain t).
 Proof.
-  intros s t [I1 I2 I3 I4 I5 I6 I7 I8 I9 I10] P.
+  intros s t [I1 I2 I3 I4 I5 I6 I7 I8 I9 I10 I11 I12] P.
   destruct (t_pc t); simpl in *; try discriminate;
     destruct I7 as [A CALLS]; unfold acc_prefix in A; rewrite firstn_all in A; auto.
 Qed.
@@ -433,7 +485,7 @@ Lemma first_rejection_stops : forall ts0 sched s ts t j b,
   exists n, (n <= S j)%nat /\ mw_calls (t_sid t) (trace s) = seq 0 n.
 Proof.
   intros ts0 sched s ts t j b FR RUN IN N NA A.
-  destruct (reachable_inv ts0 sched s ts t FR RUN IN) as [C [I1 I2 I3 I4 I5 I6 I7 I8 I9 I10]].
+  destruct (reachable_inv ts0 sched s ts t FR RUN IN) as [C [I1 I2 I3 I4 I5 I6 I7 I8 I9 I10 I11 I12]].
   assert (forall r, (exists j', rejected_at (t_chain t) j' r /\ mw_calls (t_sid t) (trace s) = seq 0 (S j')) ->
           exists n, (n <= S j)%nat /\ mw_calls (t_sid t) (trace s) = seq 0 n) as R.
   { intros r (j' & RA & CALLS). destruct (rejected_at_unique _ _ _ _ _ N NA A RA) as [-> _]. eauto. }
@@ -463,7 +515,7 @@ Lemma connect_error_carries_rejection : forall ts0 sched s ts t m,
   gone s (t_sid t).
 Proof.
   intros ts0 sched s ts t m FR RUN IN PK.
-  destruct (reachable_inv ts0 sched s ts t FR RUN IN) as [C [I1 I2 I3 I4 I5 I6 I7 I8 I9 I10]].
+  destruct (reachable_inv ts0 sched s ts t FR RUN IN) as [C [I1 I2 I3 I4 I5 I6 I7 I8 I9 I10 I11 I12]].
   rewrite I8 in PK. unfold expected_packets in PK.
   destruct (t_pc t) eqn:PC; simpl in *; try (destruct PK as [PK|[]]; discriminate); try (destruct PK; fail).
   destruct PK as [PK|[]]. inversion PK; subst m.
@@ -490,7 +542,7 @@ Lemma rejected_leaves_nothing : forall ts0 sched s ts t r,
   gone s (t_sid t).
 Proof.
   intros ts0 sched s ts t r FR RUN IN PC.
-  destruct (reachable_inv ts0 sched s ts t FR RUN IN) as [C [I1 I2 I3 I4 I5 I6 I7 I8 I9 I10]].
+  destruct (reachable_inv ts0 sched s ts t FR RUN IN) as [C [I1 I2 I3 I4 I5 I6 I7 I8 I9 I10 I11 I12]].
   assert (cleaned_pc (t_pc t) = true) as CL by (destruct PC as [-> | ->]; reflexivity).
   assert (in_store_pc (t_pc t) = false /\ connected_pc (t_pc t) = false /\ tables_pc (t_pc t) = false
           /\ spawned_pc (t_pc t) = false) as (P1 & P2 & P3 & P4) by (destruct PC as [-> | ->]; auto).
@@ -521,17 +573,30 @@ Qed.
 Definition mu (t : adm) : nat :=
   match t_pc t with
   | PMw i => (length (t_chain t) - i) + 8
-  | PCleanup _ => 2 | PSendError _ => 1 | PRejected _ => 0
+  | PDisable _ => 3 | PLeave _ => 2 | PSendError _ => 1 | PRejected _ => 0
   | PStore => 6 | PConnTables => 5 | PJoinOwn => 4 | PSendConnect => 3 | PSetConnected => 2
   | PSpawn => 1 | PAdmitted => 0
   end.
 
-Lemma step_main_mu : forall t s, (mu (fst (step_main t s)) < mu t)%nat \/ (mu t = 0%nat /\ fst (step_main t s) = t).
+(** While no Join goroutine holds joinMu the main line is never blocked; and the main line never
+    makes a goroutine hold it (it only starts new ones). *)
+Lemma existsb_hold_app_new : forall js rss,
+  existsb is_hold (js ++ map (fun rs : list N => (rs, JNew)) rss) = existsb is_hold js.
 Proof.
-  intros [sd cn ch p h] s. unfold step_main, mu; simpl. destruct p; simpl; try (left; lia); auto.
-  destruct (nth_error ch i) as [b|] eqn:N; simpl; [|left; lia].
+  induction js as [|a js IH]; intros rss; simpl.
+  - induction rss; simpl; auto.
+  - now rewrite IH.
+Qed.
+
+Lemma step_main_mu : forall t s, held t = false ->
+  held (fst (step_main t s)) = false /\
+  ((mu (fst (step_main t s)) < mu t)%nat \/ (mu t = 0%nat /\ fst (step_main t s) = t)).
+Proof.
+  intros [sd cn ch p h je js] s HD. unfold step_main, mu, held in *; simpl in *. rewrite HD.
+  destruct p; simpl; rewrite ?HD; simpl; auto; try (split; [auto|left; lia]).
+  destruct (nth_error ch i) as [b|] eqn:N; simpl; [|split; [auto|left; lia]].
   assert (i < length ch)%nat by (apply nth_error_Some; congruence).
-  destruct (mb_verdict b); simpl; left; lia.
+  destruct (mb_verdict b); simpl; rewrite existsb_hold_app_new; (split; [auto|left; lia]).
 Qed.
 
 Lemma nth_upd_nth : forall {A} n (x : A) l y, nth_error l n = Some y -> nth_error (upd_nth n x l) n = Some x.
@@ -541,35 +606,44 @@ Lemma run_cons : forall mv sched st, run (mv :: sched) st = run sched (sys_step 
 Proof. reflexivity. Qed.
 
 Lemma sys_step_main : forall s ts n t, nth_error ts n = Some t ->
-  sys_step (s, ts) (n, false) = (snd (step_main t s), upd_nth n (fst (step_main t s)) ts).
+  sys_step (s, ts) (n, WMain) = (snd (step_main t s), upd_nth n (fst (step_main t s)) ts).
 Proof. intros. unfold sys_step; simpl. rewrite H. destruct (step_main t s); reflexivity. Qed.
 
-Lemma run_alone_mu : forall k n s ts t, nth_error ts n = Some t -> (mu t <= k)%nat ->
-  exists t', nth_error (snd (run (repeat (n, false) k) (s, ts))) n = Some t' /\ mu t' = 0%nat.
+Lemma run_alone_mu : forall k n s ts t, nth_error ts n = Some t -> held t = false -> (mu t <= k)%nat ->
+  exists t', nth_error (snd (run (repeat (n, WMain) k) (s, ts))) n = Some t' /\ mu t' = 0%nat.
 Proof.
-  induction k as [|k IH]; intros n s ts t N M.
+  induction k as [|k IH]; intros n s ts t N HD M.
   - exists t. simpl. split; auto; lia.
   - cbn [repeat]. rewrite run_cons, (sys_step_main s ts n t N).
-    pose proof (step_main_mu t s) as MU.
+    pose proof (step_main_mu t s HD) as [HD1 MU].
     destruct (step_main t s) as [t1 s1] eqn:ST. simpl in *.
     assert (nth_error (upd_nth n t1 ts) n = Some t1) as N1 by (eapply nth_upd_nth; eauto).
     assert (mu t1 <= k)%nat as M1 by (destruct MU as [MU|[MU E]]; [lia | subst; lia]).
-    destruct (IH n s1 (upd_nth n t1 ts) t1 N1 M1) as (t' & N' & Z).
+    destruct (IH n s1 (upd_nth n t1 ts) t1 N1 HD1 M1) as (t' & N' & Z).
     exists t'. split; auto.
 Qed.
 
 Lemma mu_zero_terminal : forall t, mu t = 0%nat -> t_pc t = PAdmitted \/ exists r, t_pc t = PRejected r.
 Proof. intros [sd cn ch p h]. unfold mu; simpl. destruct p; simpl; intros; try lia; eauto. Qed.
 
-Lemma admission_completes : forall n s ts t, nth_error ts n = Some t ->
-  exists t', nth_error (snd (run (repeat (n, false) (length (t_chain t) + 8)) (s, ts))) n = Some t' /\
+Lemma admission_completes : forall n s ts t, nth_error ts n = Some t -> held t = false ->
+  exists t', nth_error (snd (run (repeat (n, WMain) (length (t_chain t) + 8)) (s, ts))) n = Some t' /\
              (t_pc t' = PAdmitted \/ exists r, t_pc t' = PRejected r).
 Proof.
-  intros n s ts t N.
+  intros n s ts t N HD.
   assert (mu t <= length (t_chain t) + 8)%nat as M.
-  { destruct t as [sd cn ch p h]; unfold mu; simpl. destruct p; simpl; lia. }
-  destruct (run_alone_mu _ n s ts t N M) as (t' & N' & Z).
+  { destruct t as [sd cn ch p h je js]; unfold mu; simpl. destruct p; simpl; lia. }
+  destruct (run_alone_mu _ n s ts t N HD M) as (t' & N' & Z).
   exists t'. split; auto. now apply mu_zero_terminal.
+Qed.
+
+(** A Join goroutine that holds joinMu releases it with its next step (so a blocked admission
+    resumes as soon as the goroutine is scheduled). *)
+Lemma join_releases : forall j t s rs, nth_error (t_js t) j = Some (rs, JHold) ->
+  nth_error (t_js (fst (step_join j t s))) j = Some (rs, JDone).
+Proof.
+  intros j [sd cn ch p h je js] s rs H. unfold step_join; simpl in *. rewrite H. simpl.
+  eapply nth_upd_nth; eauto.
 Qed.
 
 (** What the terminal states mean, for every schedule (so in particular for the one above):
@@ -588,7 +662,7 @@ Proof.
   destruct (reachable_inv ts0 sched s ts t FR RUN IN) as [C T].
   assert (passed_pc (t_pc t) = true) as P by (rewrite PC; reflexivity).
   destruct (passed_all_accept s t T P) as [CALLS ACC].
-  destruct T as [I1 I2 I3 I4 I5 I6 I7 I8 I9 I10]. rewrite PC in *. simpl in *.
+  destruct T as [I1 I2 I3 I4 I5 I6 I7 I8 I9 I10 I11 I12]. rewrite PC in *. simpl in *.
   repeat split; auto.
   - apply I1; auto.
   - apply I2; auto.
@@ -605,7 +679,7 @@ Lemma rejected_state : forall ts0 sched s ts t r,
 Proof.
   intros ts0 sched s ts t r FR RUN IN PC.
   pose proof (rejected_leaves_nothing ts0 sched s ts t r FR RUN IN (or_introl PC)) as G.
-  destruct (reachable_inv ts0 sched s ts t FR RUN IN) as [C [I1 I2 I3 I4 I5 I6 I7 I8 I9 I10]].
+  destruct (reachable_inv ts0 sched s ts t FR RUN IN) as [C [I1 I2 I3 I4 I5 I6 I7 I8 I9 I10 I11 I12]].
   rewrite PC in *. simpl in *. destruct I7 as (j & (b & N & V & A) & CALLS).
   split; [exists j, b; auto|]. split; auto.
 Qed.
